@@ -544,6 +544,8 @@ class TorrentFileV2(MetaFile, ProgMixin):
             Metainformation about the torrent.
         """
         info = self.meta["info"]
+        # start over: a second call must not keep the layers of the first
+        self.piece_layers = {}
         if os.path.isfile(self.path):
             info["file tree"] = {info["name"]: self._traverse(self.path)}
             info["length"] = os.path.getsize(self.path)
@@ -629,6 +631,8 @@ class TorrentFileHybrid(MetaFile, ProgMixin):
         """
         info = self.meta["info"]
         info["meta version"] = 2
+        # start over: a second call must not append to the first result
+        self.piece_layers, self.pieces, self.files = {}, [], []
 
         if os.path.isfile(self.path):
             info["file tree"] = {self.name: self._traverse(self.path)}
@@ -736,6 +740,8 @@ class TorrentAssembler(MetaFile, ProgMixin):
         """
         info = self.meta["info"]
         info["meta version"] = 2
+        # start over: a second call must not append to the first result
+        self.piece_layers, self.pieces, self.files = {}, bytearray(), []
 
         if os.path.isfile(self.path):
             info["file tree"] = {self.name: self._traverse(self.path)}
